@@ -113,6 +113,9 @@ def body(cleaned, subs, convert, cols, pairs, lc=False):
     case = dict(cleaned=cleaned, subsamples=subs, convert_units=convert, lightcone=lc, columns=list(cols)[:6] + (['...'] if len(cols) > 6 else []), npairs=len(pairs))
     c.extra['case'] = case
     c.extra['keyprefix'] = 'fields:'
+    # float32 stores are opaque rounding markers: a column computed from float64 temporaries in one load and from float32
+    # columns in another is a different term ("unaffected by which other columns were requested" is bitwise in the real reader)
+    c.extra['mark_precision'] = True
     setup(c, cleaned, subs)
     ref = load(c, 'all', cleaned, subs, convert)
     if 'error' in ref:
